@@ -51,6 +51,11 @@ type vfTWCase struct {
 	// Stale: the output directory already holds longer files under the names of the coming seconds (a clock that
 	// was set back): what is written now must not keep any of their content
 	Stale bool `json:"stale,omitempty"`
+	// StallFrame/StallBytes/StallMs: the sender goes silent for StallMs after StallBytes bytes of frame StallFrame
+	// (0 bytes: between frames), then carries on where it stopped
+	StallFrame int `json:"stall_frame,omitempty"`
+	StallBytes int `json:"stall_bytes,omitempty"`
+	StallMs    int `json:"stall_ms,omitempty"`
 }
 
 func vfGenTW(t *rapid.T) vfTWCase {
@@ -333,6 +338,18 @@ func vfRunTW(c vfTWCase) *kit.Result {
 	frame := make([]byte, c.FrameSize)
 	for i := 0; i < c.Frames && sendErr == nil; i++ {
 		vfTWFrame(c, i, frame)
+		if c.StallMs > 0 && i == c.StallFrame {
+			n := c.StallBytes
+			if n > len(frame) {
+				n = len(frame)
+			}
+			pending = append(pending, frame[:n]...)
+			sendErr = send(pending)
+			pending = pending[:0]
+			time.Sleep(time.Duration(c.StallMs) * time.Millisecond)
+			pending = append(pending, frame[n:]...)
+			continue
+		}
 		pending = append(pending, frame...)
 		// with arbitrary chunking writes may span frame boundaries: flush when enough has accumulated
 		if len(c.Chunks) == 0 || len(pending) >= 200000 {
@@ -533,3 +550,29 @@ func TestVF_C18_Reconnects(t *testing.T) {
 
 // keepLogIntervals: do not restore the daemon's package-level state between the connections of one scenario
 var keepLogIntervals bool
+
+
+// TestVF_C18_Stall: the camera daemon goes silent for a while (VERIF_SILENCE_S seconds, 12 by default) between two
+// frames or in the middle of one, then carries on. Nothing may be lost, duplicated or shifted.
+func vfGenTWStall(t *rapid.T) vfTWCase {
+	c := vfTWCase{Frames: rapid.IntRange(6, 30).Draw(t, "frames"), Seed: uint32(rapid.IntRange(1, 1<<30).Draw(t, "seed")),
+		Procs: 4, W: 160, H: 120, FPS: 9, Model: "lepton3", Brand: "flir", DevName: "stall", DevID: 3}
+	c.FrameSize = rapid.SampledFrom([]int{64, 1000, 39040}).Draw(t, "framesize")
+	c.StallFrame = rapid.IntRange(1, c.Frames-2).Draw(t, "stallframe")
+	c.StallBytes = rapid.SampledFrom([]int{0, 1, 4, 5, c.FrameSize / 2, c.FrameSize - 1}).Draw(t, "stallbytes")
+	secs := 12
+	if v, err := strconv.Atoi(os.Getenv("VERIF_SILENCE_S")); err == nil && v > 0 {
+		secs = v
+	}
+	c.StallMs = secs*1000 + 500
+	return c
+}
+
+func TestVF_C18_Stall(t *testing.T) {
+	kit.Drive(t, "C18", "TestVF_C18_Stall", "generated: one connection whose sender goes silent for 12.5 s (65.5 s in the thorough tier) between two frames or after 1, 4, 5, half or all but one byte of a frame, then carries on; same round-trip oracle as TestVF_C18. Every case counts as non-trivial.",
+		vfGenTWStall, func(c vfTWCase) *kit.Result {
+			r := vfRunTW(c)
+			r.NT = true
+			return r
+		})
+}
